@@ -349,6 +349,13 @@ func mergeValues(opts *options, old, v value) (value, Error) {
 		return v, nil
 	}
 
+	if _, ok := v.(*cfgNil); ok {
+		if _, ok := old.(*cfgNil); ok {
+			// nil onto nil is nil, not an empty object
+			return v, nil
+		}
+	}
+
 	// check if new and old value evaluate to sub-configurations. If one is no
 	// sub-configuration, use new value only.
 	subV, err := v.toConfig(opts)
